@@ -407,6 +407,15 @@ func (c *Ctx) bboxRulesSSA(pkg, typ, method string, pdf bool) {
 }
 
 // fontBBoxRulesSSA: the font box is the union of the non-empty glyph boxes.
+//
+// One iteration of the loop over the glyphs is evaluated for the four cells (the accumulator is
+// still empty | holds a box) × (the glyph's box is the zero rectangle | is not); what counts is
+// the value of the accumulator afterwards: unchanged for a zero box, the glyph's box for the
+// first real box, the union of both otherwise.  How this comes about is free: a flag and an
+// explicit test, or an Extend method that itself ignores zero arguments and replaces an empty
+// receiver — what the Extend that is called does in these cells is decided on its own body
+// (extendContract).  The boxes must be those of the method's own variant (Glyph.BBox for
+// FontBBox, Font.GlyphBBoxPDF for FontBBoxPDF) and the union is returned as it is.
 func (c *Ctx) fontBBoxRulesSSA() {
 	for _, m := range []string{"FontBBox", "FontBBoxPDF"} {
 		fn := c.method("type1", "Font", m)
@@ -416,111 +425,292 @@ func (c *Ctx) fontBBoxRulesSSA() {
 			c.undecided("Q-FONTBBOX", name, "loop over the glyphs", fn.Pos(), "no loop found")
 			continue
 		}
+		wantSrc := c.method("type1", "Glyph", "BBox")
+		if m == "FontBBoxPDF" {
+			wantSrc = c.method("type1", "Font", "GlyphBBoxPDF")
+		}
 		var problems []string
-		for _, first := range []bool{true, false} {
+		union := term("union", symV("acc"), symV("box")).String()
+		for _, accEmpty := range []bool{true, false} {
 			for _, zero := range []bool{true, false} {
-				ev := &ssaEval{c: c, bind: map[ssa.Value]sv{}, mem: map[string]sv{}}
-				ev.noInline = func(f *ssa.Function) bool { return true }
-				ev.load = func(ld *ssa.UnOp, addr sv) (sv, bool) {
-					if v, ok := ev.mem[addr.s]; ok {
-						return v, true
+				for _, atExit := range []bool{false, true} {
+					if atExit && !zero {
+						continue
 					}
-					return symV("v:" + addr.s), true
-				}
-				ev.call = func(call ssa.CallInstruction, args []sv) (sv, bool) {
-					if call == nil && len(args) > 0 && args[0].s == "next" {
-						return sv{k: svTuple, tup: []sv{boolV(true), symV("name"), sv{k: svAddr, s: "glyph"}}}, true
+					cell := fmt.Sprintf("accumulator empty: %v, empty glyph box: %v", accEmpty, zero)
+					ev := &ssaEval{c: c, bind: map[ssa.Value]sv{}, mem: map[string]sv{}}
+					ev.noInline = func(f *ssa.Function) bool { return true }
+					ev.load = func(ld *ssa.UnOp, addr sv) (sv, bool) {
+						if v, ok := ev.mem[addr.s]; ok {
+							return v, true
+						}
+						return symV("v:" + addr.s), true
 					}
-					n := callName(call)
-					switch {
-					case strings.HasSuffix(n, ").IsZero"):
-						return boolV(zero), true
-					case strings.HasSuffix(n, ".BBox") || strings.HasSuffix(n, ".GlyphBBoxPDF"):
-						return symV("box"), true
+					retCell := ""
+					var notes []string
+					ev.call = func(call ssa.CallInstruction, args []sv) (sv, bool) {
+						if call == nil && len(args) > 0 && args[0].s == "next" {
+							if atExit {
+								return sv{k: svTuple, tup: []sv{boolV(false), sv{k: svNil}, sv{k: svNil}}}, true
+							}
+							return sv{k: svTuple, tup: []sv{boolV(true), symV("name"), sv{k: svAddr, s: "glyph"}}}, true
+						}
+						n := callName(call)
+						callee := call.Common().StaticCallee()
+						switch {
+						case strings.HasSuffix(n, ").IsZero") && len(args) == 1:
+							switch args[0].s {
+							case "box":
+								return boolV(zero), true
+							case "acc":
+								return boolV(accEmpty), true
+							case union:
+								return boolV(false), true
+							}
+							return sv{}, true
+						case callee != nil && callee == wantSrc:
+							return symV("box"), true
+						case strings.HasSuffix(n, ".BBox") || strings.HasSuffix(n, ".GlyphBBoxPDF"):
+							notes = append(notes, "the boxes that are united come from "+n+", not from "+c.fname(wantSrc))
+							return symV("otherbox"), true
+						case strings.HasSuffix(n, ").Extend") && len(args) == 2 && callee != nil:
+							if args[0].k != svAddr || args[0].s != retCell || args[1].s != "box" {
+								notes = append(notes, "Extend is applied to something else than the accumulator and the glyph's box")
+								return sv{k: svNil}, true
+							}
+							skips, replaces := c.extendContract(callee)
+							cur := ev.mem[retCell]
+							curEmpty := cur.s == "acc" && accEmpty
+							switch {
+							case zero && skips:
+							case curEmpty && replaces && !zero:
+								ev.mem[retCell] = symV("box")
+							case curEmpty:
+								ev.mem[retCell] = term("union", symV("zero rectangle"), symV("box"))
+							default:
+								ev.mem[retCell] = term("union", cur, symV("box"))
+							}
+							return sv{k: svNil}, true
+						}
+						return sv{}, false
 					}
-					return sv{}, false
-				}
-				fr := &frame{vals: map[ssa.Value]sv{}}
-				for i, p := range fn.Params {
-					fr.vals[p] = sv{k: svAddr, s: fmt.Sprintf("param%d", i)}
-				}
-				at, _, _ := ev.runBlocks(fr, fn.Blocks[0], nil, func(next, from *ssa.BasicBlock) bool { return next == H })
-				if at != H {
-					problems = append(problems, "loop not reached: "+ev.why)
-					continue
-				}
-				retCell := ""
-				for _, r := range returns(fn) {
-					if len(r.Results) == 1 {
-						if ld, ok := r.Results[0].(*ssa.UnOp); ok && ld.Op == token.MUL {
-							if v := ev.val(fr, ld.X); v.k == svAddr {
-								retCell = v.s
+					fr := &frame{vals: map[ssa.Value]sv{}}
+					for i, p := range fn.Params {
+						fr.vals[p] = sv{k: svAddr, s: fmt.Sprintf("param%d", i)}
+					}
+					at, _, _ := ev.runBlocks(fr, fn.Blocks[0], nil, func(next, from *ssa.BasicBlock) bool { return next == H })
+					if at != H {
+						problems = append(problems, "loop not reached: "+ev.why)
+						continue
+					}
+					for _, r := range returns(fn) {
+						if len(r.Results) == 1 {
+							if ld, ok := r.Results[0].(*ssa.UnOp); ok && ld.Op == token.MUL {
+								if v := ev.val(fr, ld.X); v.k == svAddr {
+									retCell = v.s
+								}
 							}
 						}
 					}
-				}
-				var flag *ssa.Phi
-				for _, ins := range H.Instrs {
-					if phi, ok := ins.(*ssa.Phi); ok {
-						if bt, ok := phi.Type().Underlying().(*types.Basic); ok && bt.Info()&types.IsBoolean != 0 {
-							fr.vals[phi] = boolV(first)
-							flag = phi
-						} else {
-							fr.vals[phi] = symV("acc")
+					if retCell == "" {
+						problems = append(problems, "the result is not an accumulator variable the loop updates")
+						continue
+					}
+					var flag *ssa.Phi
+					for _, ins := range H.Instrs {
+						if phi, ok := ins.(*ssa.Phi); ok {
+							if bt, ok := phi.Type().Underlying().(*types.Basic); ok && bt.Info()&types.IsBoolean != 0 {
+								// "no box yet": true on entry, and (below) afterwards exactly when the accumulator is still empty
+								for i, p := range H.Preds {
+									if !H.Dominates(p) {
+										if v := ev.val(fr, phi.Edges[i]); v.k != svBool || !v.b {
+											problems = append(problems, "the flag of the loop is not true on entry")
+										}
+									}
+								}
+								fr.vals[phi] = boolV(accEmpty)
+								flag = phi
+							} else {
+								fr.vals[phi] = symV("v:" + phi.Name())
+							}
 						}
 					}
-				}
-				if retCell != "" {
 					ev.mem[retCell] = symV("acc")
-				}
-				ev.effects, ev.why = nil, ""
-				back := false
-				_, from, _ := ev.runBlocks(fr, H, nil, func(next, f *ssa.BasicBlock) bool {
-					if next == H {
-						back = true
-					}
-					return next == H
-				})
-				if !back {
-					problems = append(problems, fmt.Sprintf("first: %v, empty box: %v: the iteration does not come back to the loop (%s)", first, zero, ev.why))
-					continue
-				}
-				extended, assigned := false, false
-				for _, ef := range ev.effects {
-					switch ef.what {
-					case "call":
-						if strings.HasSuffix(callName(ef.ins.(ssa.CallInstruction)), ").Extend") && len(ef.args) == 2 && ef.args[1].s == "box" {
-							extended = true
+					ev.effects, ev.why = nil, ""
+					if atExit {
+						// after the last glyph: the accumulator is returned as it is
+						_, _, ret := ev.runBlocks(fr, H, nil, nil)
+						if len(ret) != 1 || ret[0].s != "acc" || ev.mem[retCell].s != "acc" {
+							got := "?"
+							if len(ret) == 1 {
+								got = ret[0].String()
+							}
+							problems = append(problems, fmt.Sprintf("after the loop (%s) the union of the glyph boxes is not returned as it is (returned: %s, %s)", cell, got, ev.why))
 						}
-					case "store":
-						if ef.addr == retCell && ef.args[0].s == "box" {
-							assigned = true
+						for _, ef := range ev.effects {
+							if ef.what == "store" && strings.HasPrefix(ef.addr, retCell+".") {
+								problems = append(problems, "after the loop a coordinate of the union is overwritten at "+c.pos(ef.ins.Pos()))
+							}
+						}
+						problems = append(problems, notes...)
+						continue
+					}
+					back := false
+					_, from, _ := ev.runBlocks(fr, H, nil, func(next, f *ssa.BasicBlock) bool {
+						if next == H {
+							back = true
+						}
+						return next == H
+					})
+					if !back {
+						problems = append(problems, fmt.Sprintf("%s: the iteration does not come back to the loop (%s)", cell, ev.why))
+						continue
+					}
+					problems = append(problems, notes...)
+					for _, ef := range ev.effects {
+						if ef.what == "store" && strings.HasPrefix(ef.addr, retCell+".") {
+							problems = append(problems, "a coordinate of the accumulator is written directly at "+c.pos(ef.ins.Pos()))
 						}
 					}
-				}
-				newFirst := first
-				if flag != nil {
-					for i, p := range H.Preds {
-						if p == from {
-							if v := ev.val(fr, flag.Edges[i]); v.k == svBool {
-								newFirst = v.b
+					want := union
+					switch {
+					case zero:
+						want = "acc"
+					case accEmpty:
+						want = "box"
+					}
+					if got := ev.mem[retCell].String(); got != want {
+						problems = append(problems, fmt.Sprintf("%s: the accumulator becomes %s, expected %s", cell, got, want))
+					}
+					if flag != nil {
+						for i, p := range H.Preds {
+							if p == from {
+								if v := ev.val(fr, flag.Edges[i]); v.k != svBool || v.b != (accEmpty && zero) {
+									problems = append(problems, fmt.Sprintf("%s: the flag becomes %s, but the accumulator is empty afterwards: %v", cell, v.String(), accEmpty && zero))
+								}
 							}
 						}
 					}
-				}
-				wantAssign := !zero && first && flag != nil
-				wantExtend := !zero && !wantAssign
-				wantFirst := first && zero
-				if flag == nil {
-					wantFirst = first
-				}
-				if assigned != wantAssign || extended != wantExtend || newFirst != wantFirst {
-					problems = append(problems, fmt.Sprintf("first box: %v, empty glyph box: %v: assigned %v, united %v, flag %v; expected %v, %v, %v", first, zero, assigned, extended, newFirst, wantAssign, wantExtend, wantFirst))
 				}
 			}
 		}
-		c.check(len(problems) == 0, "Q-FONTBBOX", name, "zero glyph boxes are skipped, the first box is taken, the rest is united", fn.Pos(), "decision table over (first, empty)", "font bounding box: "+joinMax(dedup(problems), 3))
+		c.check(len(problems) == 0, "Q-FONTBBOX", name, "zero glyph boxes are skipped, the first box is taken, the rest is united", fn.Pos(), "decision table over (accumulator empty, glyph box empty), Extend by its own body", "font bounding box: "+joinMax(dedup(problems), 3))
 	}
+}
+
+// extendContract decides on the body of an Extend method (receiver *R, argument R, R a rectangle
+// with fields LLx, LLy, URx, URy and an IsZero method) what it does with zero rectangles:
+// skips = a zero argument leaves the receiver untouched; replaces = a zero receiver becomes the
+// argument.  For two non-zero rectangles it must take the minimum of the lower and the maximum
+// of the upper coordinates, otherwise neither is granted.
+func (c *Ctx) extendContract(fn *ssa.Function) (skips, replaces bool) {
+	if r, ok := extendContracts[fn]; ok {
+		return r[0], r[1]
+	}
+	res := [2]bool{}
+	defer func() { extendContracts[fn] = res }()
+	if len(fn.Blocks) == 0 || len(fn.Params) != 2 {
+		return
+	}
+	type run struct {
+		stores map[string]string
+		cmps   []string
+		ok     bool
+	}
+	eval := func(argZero, recvZero, cmp bool) run {
+		r := run{stores: map[string]string{}}
+		ev := &ssaEval{c: c, bind: map[ssa.Value]sv{}, mem: map[string]sv{"R": symV("r")}}
+		ev.noInline = func(f *ssa.Function) bool { return true }
+		ev.load = func(ld *ssa.UnOp, addr sv) (sv, bool) {
+			// a field of a struct value that is a symbol
+			if i := strings.LastIndex(addr.s, "."); i > 0 {
+				if base, ok := ev.mem[addr.s[:i]]; ok && base.k == svSym {
+					return symV(base.s + addr.s[i:]), true
+				}
+			}
+			return sv{}, false
+		}
+		ev.call = func(call ssa.CallInstruction, args []sv) (sv, bool) {
+			if call != nil && strings.HasSuffix(callName(call), ").IsZero") && len(args) == 1 {
+				switch args[0].s {
+				case "o":
+					return boolV(argZero), true
+				case "r":
+					return boolV(recvZero), true
+				}
+				return sv{}, true
+			}
+			return sv{}, false
+		}
+		ev.oracle = func(op token.Token, x, y sv) (bool, bool) {
+			r.cmps = append(r.cmps, x.String()+" "+op.String()+" "+y.String())
+			return cmp, true
+		}
+		ev.runFunc(fn, []sv{sv{k: svAddr, s: "R"}, symV("o")})
+		returned := false
+		for _, ef := range ev.effects {
+			switch ef.what {
+			case "store":
+				if ef.addr == "R" || strings.HasPrefix(ef.addr, "R.") {
+					r.stores[ef.addr] = ef.args[0].String()
+				}
+			case "return":
+				returned = true
+			default:
+				if ef.what != "call" {
+					returned = false
+				}
+			}
+		}
+		r.ok = ev.why == "" && returned
+		return r
+	}
+	// two non-zero rectangles: componentwise minimum / maximum
+	all, none := eval(false, false, true), eval(false, false, false)
+	isUnion := all.ok && none.ok && len(none.stores) == 0 && len(all.stores) == 4 && len(all.cmps) == 4
+	for _, f := range []string{"LLx", "LLy", "URx", "URy"} {
+		if all.stores["R."+f] != "o."+f {
+			isUnion = false
+		}
+		op := "<"
+		if strings.HasPrefix(f, "UR") {
+			op = ">"
+		}
+		found := false
+		for _, cm := range all.cmps {
+			if cm == "o."+f+" "+op+" r."+f || cm == "r."+f+" "+swapOp(tokenOf(op)).String()+" o."+f {
+				found = true
+			}
+		}
+		if !found {
+			isUnion = false
+		}
+	}
+	if !isUnion {
+		return
+	}
+	z := eval(true, false, true)
+	z2 := eval(true, true, true)
+	res[0] = z.ok && z2.ok && len(z.stores) == 0 && len(z2.stores) == 0
+	e := eval(false, true, true)
+	whole := len(e.stores) == 1 && e.stores["R"] == "o"
+	fields := len(e.stores) == 4
+	for _, f := range []string{"LLx", "LLy", "URx", "URy"} {
+		if e.stores["R."+f] != "o."+f {
+			fields = false
+		}
+	}
+	res[1] = e.ok && (whole || fields && len(e.cmps) == 0)
+	return res[0], res[1]
+}
+
+var extendContracts = map[*ssa.Function][2]bool{}
+
+func tokenOf(op string) token.Token {
+	if op == "<" {
+		return token.LSS
+	}
+	return token.GTR
 }
 
 // widthRulesSSA: per-glyph width and the width map agree, fall-backs.
